@@ -1,3 +1,11 @@
+/* project / rename harnesses instantiate the definition of their specification function at the nodes they touch */
+#if defined(HARNESS_h_PROJECT_NODE)
+#define EXTRA_UNFOLD_INT(n) PUNFOLD_INT(n)
+#define EXTRA_UNFOLD_LEAF(n) PUNFOLD_LEAF(n)
+#elif defined(HARNESS_h_RENAME_NODE)
+#define EXTRA_UNFOLD_INT(n) RUNFOLD_INT(n)
+#define EXTRA_UNFOLD_LEAF(n) RUNFOLD_LEAF(n)
+#endif
 #include "common/mtbdd_tab_stubs.h"
 #define CANARY(n) __CPROVER_assert(0, "canary: " n " reaches the end (must FAIL)")
 /* the assignment argument: position i is ONE exactly when the ghost assignment says so for variable i + g_off */
@@ -72,4 +80,38 @@ void h_APPLY3(void) { FUN3* f = malloc(sizeof *f); MT *a = malloc(sizeof *a), *b
 static void construct_setup(void) { g_a = malloc(sizeof *g_a); g_dfltp = malloc(sizeof *g_dfltp); g_offp = malloc(sizeof *g_offp); __CPROVER_assume(g_a && g_dfltp && g_offp); g_dflt = *g_dfltp; g_inc_calls = 0; g_dleaf_calls = 0; }
 void h_CONSTRUCT_ID(void) { construct_setup(); g_off = 0; CONSTRUCT_ID(g_a, g_node, g_dfltp); CANARY("h_CONSTRUCT_ID"); }
 void h_CONSTRUCT_OFF(void) { construct_setup(); g_off = *g_offp; CONSTRUCT_OFF(g_a, g_node, g_dfltp, g_offp); CANARY("h_CONSTRUCT_OFF"); }
+#endif
+
+_Bool PRED(void* self, uint64_t v) { return T_PRED[v] != 0; }
+uint64_t REN(void* self, uint64_t v) { return T_REN[v]; }
+#ifdef STUB_APPLY2N
+uint64_t APPLY2N(FUN2* f, NP* a, NP* b) { __CPROVER_assert(a->f0 != 0 && b->f0 != 0, "apply precondition: non-null operands"); uint64_t r; __CPROVER_assume(APPLY2_OK(r, a->f0, b->f0)); return r; }
+#endif
+#ifdef STUB_PROJECT_NODE
+uint64_t PROJECT_NODE(uint64_t n, OPS2* f, uint32_t* d) { __CPROVER_assert(n != 0 && g_inc_calls == 0, "projectNode precondition"); uint64_t r; __CPROVER_assume(r != 0 && T_VAL[r] == T_PVAL[n] && LEVEL(r) <= LEVEL(n)); return r; }
+#endif
+#ifdef STUB_RENAME_NODE
+uint64_t RENAME_NODE(uint64_t n, void* ren) { __CPROVER_assert(n != 0 && g_inc_calls == 0, "renameNode precondition"); uint64_t r; __CPROVER_assume(r != 0 && T_VAL[r] == T_RVAL[n] && LEVEL(r) == RLEVEL(n)); return r; }
+#endif
+#ifdef STUB_CONSTRUCT_OFF
+uint64_t CONSTRUCT_OFF(ASG* a, uint64_t n, uint32_t* d, uint64_t* off) { g_cons_calls++; g_cons_asgn = a; g_cons_node = n; g_cons_dflt = *d; g_cons_off = *off; uint64_t r; g_cons_ret = r; return r; }
+#endif
+#ifdef STUB_CONSTRUCT_ID
+uint64_t CONSTRUCT_ID(ASG* a, uint64_t n, uint32_t* d) { g_cons_calls++; g_cons_asgn = a; g_cons_node = n; g_cons_dflt = *d; g_cons_off = 0; uint64_t r; g_cons_ret = r; return r; }
+#endif
+#ifdef STUB_CONSTRUCT3
+uint64_t CONSTRUCT3(ASG* a, uint32_t* v, uint32_t* d) { g_cons_calls++; g_cons_asgn = a; g_cons_value = *v; g_cons_dflt = *d; uint64_t r; g_cons_ret = r; return r; }
+#endif
+#ifdef HARNESS_h_PROJECT_NODE
+void h_PROJECT_NODE(void) { OPS2* f = malloc(sizeof *f); uint32_t* d = malloc(sizeof *d); __CPROVER_assume(f && d); uint64_t n; g_inc_calls = 0; PROJECT_NODE(n, f, d); CANARY("h_PROJECT_NODE"); }
+#endif
+#ifdef HARNESS_h_RENAME_NODE
+void h_RENAME_NODE(void) { void* r = malloc(1); uint64_t n; g_inc_calls = 0; RENAME_NODE(n, r); CANARY("h_RENAME_NODE"); }
+#endif
+#if defined(HARNESS_h_PROJECT) || defined(HARNESS_h_RENAME) || defined(HARNESS_h_EXTEND) || defined(HARNESS_h_ACTOR) || defined(HARNESS_h_CONSTRUCT3)
+void h_PROJECT(void) { OPS2* f = malloc(sizeof *f); MT *m = malloc(sizeof *m), *res = malloc(sizeof *res); __CPROVER_assume(f && m && res); g_inc_calls = 0; PROJECT(res, m, f); CANARY("h_PROJECT"); }
+void h_RENAME(void) { MT *m = malloc(sizeof *m), *res = malloc(sizeof *res); __CPROVER_assume(m && res); g_inc_calls = 0; RENAME(res, m); CANARY("h_RENAME"); }
+void h_EXTEND(void) { MT *m = malloc(sizeof *m), *res = malloc(sizeof *res); ASG* a = malloc(sizeof *a); uint64_t* off = malloc(sizeof *off); __CPROVER_assume(m && res && a && off); g_inc_calls = 0; g_cons_calls = 0; EXTEND(res, m, a, off); CANARY("h_EXTEND"); }
+void h_ACTOR(void) { MT *m = malloc(sizeof *m); ASG* a = malloc(sizeof *a); uint32_t *v = malloc(sizeof *v), *d = malloc(sizeof *d); __CPROVER_assume(m && a && v && d); g_inc_calls = 0; g_cons_calls = 0; ACTOR(m, a, v, d); CANARY("h_ACTOR"); }
+void h_CONSTRUCT3(void) { ASG* a = malloc(sizeof *a); uint32_t *v = malloc(sizeof *v), *d = malloc(sizeof *d); __CPROVER_assume(a && v && d); g_inc_calls = 0; g_cons_calls = 0; CONSTRUCT3(a, v, d); CANARY("h_CONSTRUCT3"); }
 #endif
